@@ -246,10 +246,18 @@ def _lost_to_absent_rival(h, hits, out, lengths, neighbour_mode) -> bool:
         return any(x != h and better(x, h) and conflict(x, h, lengths) and not represented(x, out) for x in hits)
     rivals = list(hits) + all_units(hits, lengths)
     selves = [h] + _merge_units(h, hits, lengths)
+
+    def absent(x, me):
+        # not in the output, nor standing in it as part of a same-profile hit that competes with the candidate
+        # (a short fragment nested in a kept hit of its profile that is too long to merge with it competes on
+        # its own and is removed as incomplete afterwards: the kept hit is no rival of the candidate)
+        return not any((o == x or (o.p == x.p and contains(o, x) and o.sc >= x.sc and o.ev <= x.ev))
+                       and conflict(o, me, lengths) for o in out)
+
     # same-profile rivals compete too (fragments too far apart to merge stay separate hits), but a merge that
     # contains the candidate is the candidate itself, not a rival
     return any((x.p != me.p or not contains(x, me)) and x != me and better(x, me) and conflict(x, me, lengths)
-               and not represented(x, out)
+               and absent(x, me)
                for me in selves for x in rivals)
 
 
